@@ -79,6 +79,33 @@ def build(ctx, pkgs=("./cmd/fedstream", "./cmd/fedroute")):
     return out
 
 
+_variant = {}
+
+
+def detect_fixes(ctx):
+    """which of the proposed repairs does the tree under test contain?  Decided by behaviour (fedstream -probe variant:
+    three micro scenarios on the real objects).  The answer only selects the model variant (CONSTANT Fixes) the replay is
+    compared with - the model mirrors the code -; the replay then checks every transition against that variant."""
+    bindir = build(ctx)
+    if bindir in _variant:
+        return _variant[bindir]
+    r = subprocess.run([os.path.join(bindir, "fedstream"), "-probe", "variant"], stdin=subprocess.DEVNULL, stdout=subprocess.PIPE,
+                       stderr=subprocess.PIPE, text=True, timeout=120)
+    try:
+        o = json.loads(r.stdout.strip().splitlines()[-1])
+        fixes = list(o["fixes"])
+    except (ValueError, IndexError, KeyError):
+        raise vlib.MachineryError("variant probe failed rc=%s: %.300s %.300s" % (r.returncode, r.stdout, r.stderr))
+    _variant[bindir] = fixes
+    if fixes:
+        vlib.log("[fed] repairs present in the tree (model variant): %s" % ", ".join(fixes))
+    return fixes
+
+
+STREAM_FIXES = ("next_before_ack", "unestablished_clean")
+ROUTE_FIXES = ("retained_clear_removes",)
+
+
 def _collect(out, what):
     summary, divs = None, []
     for line in out:
@@ -130,10 +157,13 @@ def _bounds(b):
     return d
 
 
-def run_stream_pack(ctx, name, clients, topics, bounds, fixes=(), workers=6, drv_workers=0, timeout=1500, autonext=False):
+def run_stream_pack(ctx, name, clients, topics, bounds, fixes=None, workers=6, drv_workers=0, timeout=1500):
     """TLC explores FedStream.tla with the pack's constants; every generated transition is replayed on the real
-    objects.  Returns (summary, divs)."""
+    objects.  Returns (summary, divs, pack)."""
     bindir = build(ctx)
+    if fixes is None:
+        fixes = [f for f in detect_fixes(ctx) if f in STREAM_FIXES]
+    autonext = "next_before_ack" in fixes
     b = _bounds(bounds)
     cfg = STREAM_CFG % dict(b, ac="ACTION_CONSTRAINT DumpAC", inv="")
     cmd = [os.path.join(bindir, "fedstream"), "-workers", str(drv_workers)]
@@ -152,7 +182,7 @@ def run_stream_pack(ctx, name, clients, topics, bounds, fixes=(), workers=6, drv
             name, res.generated, summary["n"]))
     for d in divs:
         d["pack"] = name
-    pack = {"pack": name, "clients": clients, "topics": topics, "bounds": b, "states": res.distinct,
+    pack = {"pack": name, "clients": clients, "topics": topics, "bounds": b, "model_variant": list(fixes), "states": res.distinct,
             "transitions_replayed": summary["n"], "states_violating_a_clause": summary.get("bad_states", 0),
             "map_order_retries": summary.get("retries", 0), "ops": summary.get("ops", {}), "wall_s": round(res.wall, 1)}
     return summary, divs, pack
@@ -164,6 +194,40 @@ def design_check_stream(ctx, name, clients, topics, bounds, fixes, inv="StrictOK
     cfg = STREAM_CFG % dict(b, ac="", inv=inv)
     return ctx.tlc("FedStream", _stream_body(clients, topics, fixes, False), cfg, name="FedStreamDesign_" + name,
                    workers=workers, timeout=timeout, count=False)
+
+
+EMIT_CFG = """SPECIFICATION Spec
+CONSTANTS
+ Clients <- mc_Clients
+ Fixes <- mc_Fixes
+INVARIANTS InOrder
+"""
+
+
+def hook_probe(ctx, tries=200):
+    """FedEmit.tla (two-step emission of hooks.go) is checked by TLC; if the as-coded model has the order inversion,
+    its schedule is run on the real hook wrappers (harness/cmd/fedstream -probe hookrace).  Returns a dict:
+    model_violation (bool), reproduced (bool), observed (text), tries, window ("closed" if the code holds memberMu
+    over both steps)."""
+    bindir = build(ctx)
+    body = 'mc_Clients == {"c1", "c2"}\nmc_Fixes == {}'
+    res = ctx.tlc("FedEmit", body, EMIT_CFG, name="FedEmit", workers=2, timeout=300, count=False)
+    out = {"model_violation": res.violation is not None, "reproduced": False}
+    fixed = ctx.tlc("FedEmit", 'mc_Clients == {"c1", "c2"}\nmc_Fixes == {"atomic_emission"}', EMIT_CFG, name="FedEmitFixed",
+                    workers=2, timeout=300, count=False)
+    out["repaired_model_holds"] = fixed.violation is None
+    if not out["model_violation"]:
+        return out
+    r = subprocess.run([os.path.join(bindir, "fedstream"), "-probe", "hookrace", "-tries", str(tries)], stdin=subprocess.DEVNULL,
+                       stdout=subprocess.PIPE, stderr=subprocess.PIPE, text=True, timeout=300)
+    if r.returncode != 0:
+        raise vlib.MachineryError("hook race probe failed rc=%s: %s" % (r.returncode, r.stderr[-1000:]))
+    try:
+        o = json.loads(r.stdout.strip().splitlines()[-1])
+    except (ValueError, IndexError):
+        raise vlib.MachineryError("hook race probe printed garbage: %.300s" % r.stdout)
+    out.update({k: o.get(k) for k in ("reproduced", "observed", "tries", "window", "queued", "local")})
+    return out
 
 
 # ------------------------------------------------------------------------------------------------ C17
@@ -213,12 +277,14 @@ def _route_body(nodes, clients, filters, topics, fixes, dump, kinds=("plain", "r
     return "\n".join(lines)
 
 
-def run_route_pack(ctx, name, nodes, clients, filters, topics, maxsubs, maxpub, fixes=(), workers=6, drv_workers=0,
+def run_route_pack(ctx, name, nodes, clients, filters, topics, maxsubs, maxpub, fixes=None, workers=6, drv_workers=0,
                    timeout=1500, kinds=("plain", "ret", "clear")):
     for t in list(topics) + [split_full(f)[1] for f in filters]:
         if t.startswith("$") and t.split("/")[0] not in SYS_LEVELS:
             raise vlib.MachineryError("pack %s: '$' level of %s is not in SysLevels" % (name, t))
     bindir = build(ctx)
+    if fixes is None:
+        fixes = [f for f in detect_fixes(ctx) if f in ROUTE_FIXES]
     meta = {"nodes": sorted(nodes), "filters": filters, "topics": topics}
     mpath = os.path.join(ctx.tmp("meta"), "fedroute_" + name + ".json")
     with open(mpath, "w") as fh:
@@ -230,6 +296,7 @@ def run_route_pack(ctx, name, nodes, clients, filters, topics, maxsubs, maxpub, 
     if rc != 0:
         raise vlib.MachineryError("fedroute driver failed rc=%s (pack %s)" % (rc, name))
     summary, divs = _collect(out, "fedroute")
+    meta = dict(meta, match=summary.get("match"))
     for d in divs:
         d["pack"] = name
         d["meta"] = meta
@@ -245,7 +312,7 @@ def run_route_pack(ctx, name, nodes, clients, filters, topics, maxsubs, maxpub, 
         raise vlib.MachineryError("fedroute pack %s: TLC generated %d states, the driver replayed %d transitions" % (
             name, res.generated, summary["n"]))
     pack = {"pack": name, "nodes": sorted(nodes), "clients": clients, "filters": filters, "topics": topics, "max_subs": maxsubs,
-            "max_pub": maxpub, "kinds": list(kinds), "states": res.distinct, "transitions_replayed": summary["n"],
+            "max_pub": maxpub, "kinds": list(kinds), "model_variant": list(fixes), "states": res.distinct, "transitions_replayed": summary["n"],
             "publications_violating_a_clause": summary.get("bad_states", 0), "via_on_will_publish": summary.get("via_will", 0),
             "match_pairs": summary.get("match_pairs"), "wall_s": round(res.wall, 1), "stopped_early": bool(model_only)}
     return summary, divs, pack
@@ -310,3 +377,39 @@ def report(ctx, prop, kind, all_divs, summaries):
         what += " | history: " + history(line)
         ctx.violation(what, {"signature": sig, "kind": kind, "pack": d.get("pack"), "meta": d.get("meta"),
                              "transition": line, "replay": "harness/cmd/%s -raw < transition (one JSON line)" % kind})
+
+
+def replay(ctx, prop):
+    """./check <Cxx> <tier> --replay <artefact>: run the stored transition (or probe) again on the real objects"""
+    with open(ctx.replay) as fh:
+        art = json.load(fh)
+    bindir = build(ctx)
+    kind = art.get("kind")
+    if kind == "fedstream-probe":
+        hp = hook_probe(ctx)
+        if hp.get("reproduced") and hp.get("observed"):
+            ctx.violation("replayed: " + art.get("what", ""), {"signature": art["signature"], "kind": kind, "result": hp})
+        return
+    line = json.dumps(art["transition"])
+    if kind == "fedstream":
+        cmd = [os.path.join(bindir, "fedstream"), "-raw", "-workers", "1"]
+        if "next_before_ack" in detect_fixes(ctx):
+            cmd.append("-autonext")
+        inp = line + "\n"
+    elif kind == "fedroute":
+        mpath = os.path.join(ctx.tmp("meta"), "replay_meta.json")
+        with open(mpath, "w") as fh:
+            json.dump(art["meta"], fh)
+        cmd = [os.path.join(bindir, "fedroute"), "-raw", "-workers", "1", "-meta", mpath]
+        inp = json.dumps({"match": art["meta"].get("match") or []}) + "\n" + line + "\n"
+    else:
+        raise vlib.MachineryError("unknown replay artefact kind %r" % kind)
+    r = subprocess.run(cmd, input=inp, stdout=subprocess.PIPE, stderr=subprocess.PIPE, text=True, timeout=300)
+    if r.returncode != 0:
+        raise vlib.MachineryError("replay driver failed rc=%s: %s" % (r.returncode, r.stderr[-1000:]))
+    summary, divs = _collect(r.stdout.splitlines(), kind)
+    for d in divs:
+        d["meta"] = art.get("meta")
+    ctx.cov["traces_validated_against_impl"] += summary["n"]
+    ctx.cov["evaluations"] += summary["n"]
+    report(ctx, prop, kind, divs, [summary])
